@@ -8,7 +8,8 @@
 (***************************************************************************)
 EXTENDS National, FiniteSets
 
-CONSTANT DigitVals        \* e.g. {48, 49, 53, 57}
+CONSTANTS DigitVals,       \* e.g. {48, 57}
+          FullAlphabet     \* TRUE: one letter position runs over all of 0-9A-Z (thorough tier)
 LetterVals == {65, 90}
 
 \* 0-based positions where the published format allows letters
@@ -17,7 +18,14 @@ Vary(cc) == LET L == NatLen(cc) IN {((k * (L - 1)) \div 5) : k \in 0..5}
 Base(cc) == [i \in 1..NatLen(cc) |-> IF cc \in {IT, SM} /\ i = 1 THEN 88 ELSE 49 + (i % 3)]
 
 VaryList(c) == LET L == NatLen(c) IN [k \in 1..6 |-> ((k - 1) * (L - 1)) \div 5]
-Allowed(c, p) == IF c \in {IT, SM} /\ p = 0 THEN {} 
+\* the first varying position inside the letter range runs over the WHOLE alphabet (the
+\* letter-folding tables of FR/MC, IT/SM, MK have one entry per letter)
+FirstLetterPos(c) == IF \E k \in 1..6 : VaryList(c)[k] \in LetterRange(c)
+                     THEN VaryList(c)[CHOOSE k \in 1..6 : VaryList(c)[k] \in LetterRange(c)
+                                           /\ \A j \in 1..(k - 1) : VaryList(c)[j] \notin LetterRange(c)]
+                     ELSE 0 - 1
+Allowed(c, p) == IF c \in {IT, SM} /\ p = 0 THEN {}
+                 ELSE IF FullAlphabet /\ p = FirstLetterPos(c) THEN (48..57) \cup (65..90)
                  ELSE IF p \in LetterRange(c) THEN DigitVals \cup LetterVals ELSE DigitVals
 
 VARIABLES cc, body, k, variant
